@@ -24,7 +24,22 @@ import os
 import re
 from collections import Counter
 
-from vlib import read_jsonl, canon_hash
+from vlib import canon_hash
+
+
+def read_jsonl(path):
+    """tolerant reader: a harness that was killed leaves a truncated last line"""
+    out = []
+    if not os.path.exists(path):
+        return out
+    for line in open(path, errors="replace"):
+        line = line.strip()
+        if line:
+            try:
+                out.append(json.loads(line))
+            except ValueError:
+                break
+    return out
 
 SHUTDOWN_SIG = "relocationWorker:shutdown-forbidden"
 
